@@ -31,6 +31,10 @@ fn statements(joined: &str) -> Vec<String> {
         "SELECT k FROM t GROUP BY k HAVING COUNT(*) = 2 AND SUM(v) = 4".into(),
         "SELECT k, COUNT(*) FROM t GROUP BY k HAVING MAX(v) = 7 AND MIN(v) = 1 AND COUNT(v) = 2 AND SUM(v) = 8".into(),
         "SELECT k FROM t GROUP BY k HAVING SUM(v) > COUNT(*) AND MIN(v) < MAX(v)".into(),
+        "SELECT k FROM t WHERE v IN (1, 2, 'three', 3, 7) OR k NOT IN ('zz', 4, 'yy')".into(),
+        "SELECT DISTINCT COUNT(*), MAX(v) FROM t GROUP BY k".into(),
+        "SELECT DISTINCT COUNT(v) FROM t GROUP BY k LIMIT 2".into(),
+        "SELECT DISTINCT b, COUNT(*) FROM t GROUP BY k, b HAVING COUNT(*) > 0 LIMIT 3".into(),
         "SELECT * FROM tt".into(),
         "SELECT k, COUNT(*) FROM Tt GROUP BY k".into(),
         "SELECT COUNT(*), COUNT(DISTINCT k), COUNT(DISTINCT s), STDDEV(v) FROM t".into(),
